@@ -13,6 +13,7 @@ import (
 	"fmt"
 	"math"
 	"sort"
+	"strings"
 	"testing"
 
 	"verifharness/ckit"
@@ -71,6 +72,7 @@ func TestGen(t *testing.T) {
 	out := hx.OpenOut()
 	defer out.Close()
 	id := 0
+	envErrors := 0
 	const unit = int64(64 << 20)
 	for w := 0; w < nworlds; w++ {
 		cl := ckit.NewCluster(t, ckit.Options{})
@@ -135,6 +137,15 @@ func TestGen(t *testing.T) {
 				}
 			}
 			cl.Quiesce()
+			// infrastructure errors of the embedded etcd under load (request timed out, context deadline …) say
+			// nothing about the strategy: drop the case (counted) and rebuild the world state from scratch next step
+			if firstErr != nil && strings.HasPrefix(errClass(firstErr), "other:") {
+				envErrors++
+				if envErrors > 20 {
+					t.Fatalf("too many infrastructure errors: %v", firstErr)
+				}
+				continue
+			}
 			if firstErr != nil && len(plan) == 0 {
 				k.Impl = map[string]any{"err": errClass(firstErr)}
 			} else if firstErr != nil {
